@@ -34,6 +34,12 @@ func (sc *sliceContainers) Get(key uint64) *Container {
 }
 
 func (sc *sliceContainers) Put(key uint64, c *Container) {
+	// we don't want to store nil containers; putting nil is equivalent to
+	// not having a container at that location (as in the B-tree collection).
+	if c == nil {
+		sc.Remove(key)
+		return
+	}
 	i := search64(sc.keys, key)
 
 	// If index is negative then there's not an exact match
@@ -214,6 +220,10 @@ func (sc *sliceContainers) Update(key uint64, fn func(*Container, bool) (*Contai
 	if found {
 		nc, write = fn(sc.containers[i], true)
 		if write {
+			if nc == nil {
+				sc.Remove(key)
+				return
+			}
 			sc.containers[i] = nc
 			sc.refreshLast(key, nc)
 		}
@@ -232,13 +242,37 @@ func (sc *sliceContainers) Update(key uint64, fn func(*Container, bool) (*Contai
 // (new-container, write). If write is true, the container is used to
 // replace the given container.
 func (sc *sliceContainers) UpdateEvery(fn func(uint64, *Container, bool) (*Container, bool)) {
+	dropped := false
 	for i, c := range sc.containers {
 		nc, write := fn(sc.keys[i], c, true)
 		if write {
 			sc.containers[i] = nc
 			sc.refreshLast(sc.keys[i], nc)
+			if nc == nil {
+				dropped = true
+			}
 		}
 	}
+	if !dropped {
+		return
+	}
+	// nil containers are not stored: compact them away.
+	n := 0
+	for i, c := range sc.containers {
+		if c == nil {
+			if sc.keys[i] == sc.lastKey {
+				sc.lastKey = ^uint64(0)
+				sc.lastContainer = nil
+			}
+			continue
+		}
+		sc.keys[n], sc.containers[n] = sc.keys[i], c
+		n++
+	}
+	for i := n; i < len(sc.containers); i++ {
+		sc.containers[i] = nil
+	}
+	sc.keys, sc.containers = sc.keys[:n], sc.containers[:n]
 }
 
 type sliceIterator struct {
